@@ -914,6 +914,15 @@ class BlockBase(Base):
                 and hasattr(start_stmt, "get_name")
             ):
                 if end_stmt.get_name() is not None:
+                    if start_stmt.get_name() is None:
+                        # e.g. an unnamed BLOCK DATA closed by a named END.
+                        if table_name:
+                            SYMBOL_TABLES.remove(table_name)
+                        raise FortranSyntaxError(
+                            reader,
+                            f"Name '{end_stmt.get_name()}' has no corresponding "
+                            f"starting name",
+                        )
                     if (
                         start_stmt.get_name().string.lower()
                         != end_stmt.get_name().string.lower()
